@@ -20,7 +20,7 @@ ASSUMPTIONS = [
     "existence queries reject corruption on local stores only (the base store's query is existence-only, as the statement says)",
 ]
 MONITORS = "verdicts of check / oids_exist / checkout / verifying add compared with the harness's own ground truth of which objects were tampered; file presence and mode bits re-read from disk"
-REQUIRED_COUNTERS = ["used_intact_before_tamper", "probe/check", "probe/oids_exist", "probe/checkout", "probe/verify-add", "state/warm", "state/cold", "state/none",
+REQUIRED_COUNTERS = ["verify_add_over_intact_object", "read_only_handle_probes", "used_intact_before_tamper", "probe/check", "probe/oids_exist", "probe/checkout", "probe/verify-add", "state/warm", "state/cold", "state/none",
                      "tampered_objects", "intact_objects_checked", "store/local", "store/base", "tamper/truncate", "tamper/append",
                      "tamper/same-length", "tamper/diff-length", "tamper/rename", "unprotected_intact_checked"]
 
@@ -87,12 +87,15 @@ def run_shard(ctx):
             root = os.path.join(d, "cache")
             state = env.mk_state(d, os.path.join(d, "tmp")) if smode != "none" else None
             odb_add = env.odb_of_class(cls, root, state=state if smode == "warm" else None)
-            odb = env.odb_of_class(cls, root, state=state)
+            ro = rng.random() < 0.2
+            odb = env.odb_of_class(cls, root, state=state, **({"read_only": True} if ro else {}))
+            if ro:
+                res.count("read_only_handle_probes")
             files, _e = gen.tree(rng, depth=rng.randrange(0, 3), fanout=3, odd=0.3, dup=0.3, min_files=2)
             ws = os.path.join(d, "ws")
             gen.write_tree(ws, files)
             res.evaluated()
-            cfg = {"store": cls, "state": smode, "probe": probe, "files": len(files)}
+            cfg = {"store": cls, "state": smode, "probe": probe, "files": len(files), "read_only_handle": ro}
 
             if probe == "verify-add":
                 # a source whose bytes do not match the oid it is added under
@@ -101,7 +104,7 @@ def run_shard(ctx):
                 good = H("md5", files[k])
                 wrong = H("md5", files[k] + b"other")
                 via_cfg = rng.random() < 0.5
-                vodb = env.odb_of_class(cls, root, state=state, verify=True) if via_cfg else odb
+                vodb = env.odb_of_class(cls, root, state=state, verify=True) if via_cfg else env.odb_of_class(cls, root, state=state)
                 errs = []
                 kw = {} if via_cfg else {"verify": True}
                 vodb.add([src], fs, [wrong], on_error=(lambda o, e: errs.append(o)) if rng.random() < 0.5 else None, **kw)
@@ -117,6 +120,19 @@ def run_shard(ctx):
                     res.violation("verifying-add-dropped-intact-object", "a matching object was not retained by a verifying add", case=case, detail=cfg)
                 elif cls == "local" and stat.S_IMODE(os.stat(p).st_mode) != 0o444:
                     res.violation("intact-object-not-read-only", "verified object not read-only in a local store", case=case, detail=cfg)
+                # the object is present and intact; a verifying add of *other* bytes under the same id must not leave a mismatch behind
+                if rng.random() < 0.7:
+                    res.count("verify_add_over_intact_object")
+                    other_src = os.path.join(ws, "other-src")
+                    with open(other_src, "wb") as f:
+                        f.write(files[k][::-1] + b"not-the-same")
+                    try:
+                        vodb.add([other_src], fs, [good], check_exists=False, on_error=(lambda o, e: errs.append(o)) if rng.random() < 0.5 else None, **kw)
+                    except Exception:  # noqa: BLE001  (refusing loudly is fine)
+                        pass
+                    if os.path.exists(p) and file_bytes(p) != files[k]:
+                        res.violation("verifying-add-retained-mismatching-object/over-intact-object",
+                                      f"after a verifying re-add of other bytes, object {good} holds bytes that do not match its name", case=case, detail=cfg)
                 if state:
                     state.close()
                 env.reset_staging()
